@@ -66,18 +66,23 @@ func propC03(c *Ctx) {
 	}
 	c.Check("R3.1", "load/compare-localHash-with-first-parent", ld.Pos(), eqCall != nil, "load compares its localHash parameter with blocks[0].Header.Parent")
 	nReorgRet := 0
-	for _, r := range returnsOf(ld) {
-		vals := returnValues(r)
-		if len(vals) != 2 {
-			continue
+	// a callee's own reorg verdict handed on (`case errors.Is(err, ErrReorg): return nil, true, nil`)
+	var passOn []Edge
+	allInstrs(ld, func(in ssa.Instruction) {
+		if call, ok := in.(*ssa.Call); ok && calleeName(call) == "errors.Is" && len(call.Call.Args) == 2 {
+			if u, ok := call.Call.Args[1].(*ssa.UnOp); ok && u.X == ssa.Value(errReorg) {
+				t, _ := boolEdges(call)
+				passOn = append(passOn, t...)
+			}
 		}
-		u, ok := vals[1].(*ssa.UnOp)
-		if !ok || u.X != errReorg {
+	})
+	for _, r := range returnsOf(ld) {
+		if !isReorgReturn(r, errReorg) {
 			continue
 		}
 		nReorgRet++
-		c.Check("R3.1", fmt.Sprintf("load/return-ErrReorg#%d", nReorgRet), instrPos(r), eqCall != nil && guardedByEdges(ld, r, eqFalse),
-			"ErrReorg is returned only on the edge where the hashes differ")
+		c.Check("R3.1", fmt.Sprintf("load/return-ErrReorg#%d", nReorgRet), instrPos(r), eqCall != nil && (guardedByEdges(ld, r, eqFalse) || guardedByEdges(ld, r, passOn)),
+			"a reorg is signalled only on the edge where the hashes differ")
 	}
 	if nReorgRet == 0 {
 		c.Violation("R3.1", "load/return-ErrReorg", ld.Pos(), "load never returns ErrReorg: a replaced chain is not detected")
@@ -103,7 +108,7 @@ func propC03(c *Ctx) {
 		_ = lenEsc
 		for i, r := range returnsOf(ld) {
 			vals := returnValues(r)
-			if len(vals) == 2 && isNilConst(vals[1]) {
+			if len(vals) >= 2 && isNilConst(vals[len(vals)-1]) && !isReorgReturn(r, errReorg) {
 				// every path to the success return passes either bytes.Equal==true or the len!=32 escape
 				var esc []Edge
 				esc = append(esc, eqTrue...)
@@ -149,9 +154,8 @@ func propC03(c *Ctx) {
 		c.Violation("R3.2", "Converge/calls", conv.Pos(), "expected one latest and one load call")
 		return
 	}
-	lerr, _ := errResult(loads[0])
-	isReorg, _ := errorsIsEdges(lerr, errReorg)
-	c.Check("R3.2", "Converge/tests-ErrReorg", loads[0].Pos(), len(isReorg) > 0, "load's error is tested with errors.Is(err, ErrReorg)")
+	isReorg, _ := reorgEdgesOf(loads[0], errReorg)
+	c.Check("R3.2", "Converge/tests-ErrReorg", loads[0].Pos(), len(isReorg) > 0, "load's reorg signal is tested (errors.Is(err, ErrReorg), or load's boolean result)")
 	localNum := extractOf(lats[0], 0)
 	nd := 0
 	for _, d := range dels {
